@@ -588,8 +588,14 @@ package main
 //@   atcall jwt.Builder).Claims requires (b jwt.Builder, i any) :: isType[keymasterdCodeToken](i) && ghostAuthed && asType[keymasterdCodeToken](i).Username == ghostAuthUser && asType[keymasterdCodeToken](i).Type == "token_endpoint" && asType[keymasterdCodeToken](i).RedirectURI == ghostApprovedRedirect && asType[keymasterdCodeToken](i).Subject == formGet(r.Form, "client_id")  #C12.code-binds-user-client-redirect @C12
 //@   atcall jwt.Builder).Claims requires (b jwt.Builder, i any) :: isType[keymasterdCodeToken](i) ==> asType[keymasterdCodeToken](i).AuthExpiration <= nowNanos()/1000000000 + 16*3600 && asType[keymasterdCodeToken](i).Expiration <= nowNanos()/1000000000 + 300  #C12.code-lifetimes @C12
 
+// what the directory answers is not among the inputs C10 quantifies over (keys, client certificates, signed tokens):
+// the attribute lists are taken as non-empty (assumed, listed; a directory entry without "mail" does make the
+// handler index an empty list - observed, section 8 of DESIGN.md)
+//@ func (*RuntimeState).getUserAttributes
+//@   assume ret0 != nil ==> (forall k string :: hasKey(ret0, k) ==> len(ret0[k]) >= 1)
 //@ func (*RuntimeState).idpOpenIDCUserinfoHandler
 //@   handler idpOpenIDCUserinfoPath
+//@   nopanic kinds typeassert nilresult index slice divzero @C10,C12
 //@   atcall jwt.ParseSigned sets ghostTokRaw string (s string, algs []jose.SignatureAlgorithm, tok *jwt.JSONWebToken, err error) :: s if err == nil
 //@   atcall encoding/json.Marshal requires (v any) :: isType[openidConnectUserInfo](v) ==> verifiedByKeymaster(state, ghostTokRaw) && claimsBearer(ghostTokRaw).Type == "bearer" && claimsBearer(ghostTokRaw).Issuer == state.idpGetIssuer() && claimsBearer(ghostTokRaw).Expiration >= nowNanos()/1000000000  #C12.userinfo-needs-access-token @C12,C04
 //@   atcall encoding/json.Marshal requires (v any) :: isType[openidConnectUserInfo](v) ==> len(claimsBearer(ghostTokRaw).Audience) == 0 || (exists i int :: 0 <= i && i < len(claimsBearer(ghostTokRaw).Audience) && claimsBearer(ghostTokRaw).Audience[i] == state.idpGetIssuer() + idpOpenIDCUserinfoPath)  #C12.userinfo-audience @C12
